@@ -895,6 +895,29 @@ where
         if n != exp.len() || il.next_sample().is_some() {
             return bad("exhaust.interleaved", format!("{name}: next_sample() yielded {n} samples, expected {}", exp.len()));
         }
+        // mixed use: k samples through next_sample(), the rest through the iterator
+        for k in 0..=exp.len().min(2 * F::CHANNELS + 1) {
+            let mut w = Watch::default();
+            let sig = build_tree::<F>(p, &mut Ext(None), &mut w, 0, &mut 0, h + 4);
+            let mut il = sig.into_interleaved_samples();
+            for j in 0..k {
+                let s = il.next_sample();
+                if s != Some(exp[j]) {
+                    return bad("exhaust.interleaved", format!("{name}: next_sample() #{j} = {s:?}, expected {:?}", exp[j]));
+                }
+            }
+            let mut it = il.into_iter();
+            let mut got = Vec::new();
+            for _ in 0..exp.len() - k + 4 {
+                match it.next() {
+                    Some(s) => got.push(s),
+                    None => break,
+                }
+            }
+            if got[..] != exp[k..] || it.next().is_some() || it.next().is_some() {
+                return bad("exhaust.interleaved", format!("{name}: after {k} samples through next_sample(), into_iter() yielded {} samples {got:?}, expected the remaining {}: {:?}, then None for good", got.len(), exp.len() - k, &exp[k..]));
+            }
+        }
         // 4. lift: the iterator is handed to the closure as the first leaf
         if let Leaf::Iter(len) = p.first_main_leaf() {
             let frames: Vec<F> = (0..len as usize).map(|k| F::coded(1, k)).collect();
